@@ -15,7 +15,7 @@ struct C03 : Property
 {
 	const char *id() const override { return "C03"; }
 	const char *level() const override { return "exploration"; }
-	uint64_t runs(Tier t) const override { return t == QUICK ? 24000 : 700000; }
+	uint64_t runs(Tier t) const override { return t == QUICK ? 40000 : 1200000; }
 	std::string rule() const override
 	{
 		return "per run: one generated or mutated stream (<=~260 bytes; all token kinds, escapes, surrogates, multi-byte UTF-8, comments, number "
